@@ -63,6 +63,9 @@ def run : Runner
   | "concquery", _, impl =>
     -- queries leave the filter unchanged (C09_query_pure), so every order of them answers true for inserted items
     pure { model := "ok", prop := if impl == "ok" then "ok" else "violated:inserted item reported absent under concurrent queries " ++ impl }
+  | "scanconc", _, impl =>
+    -- only race freedom is decided here (by the race detector); the result of a scan racing insertions depends on the schedule
+    pure { model := "done", prop := if impl == "done" then "ok" else "violated:" ++ impl }
   | "gcsimm", _, impl =>
     -- "Golomb-coded set filters, being immutable": overwriting the constructor's inputs or an accessor's output
     -- never changes what a filter serialises to
